@@ -55,6 +55,7 @@ type Options struct {
 	Allow         map[string]bool
 	AltVars       int  // number of alternative variable assignments to draw (Op.Alt)
 	OwnFieldAlias bool // allow aliases drawn from the enclosing type's own field names (known finding C01-alias-collides-with-planner-field)
+	NoShortVars   bool // never name client variables a, b, c, … (the names variable extraction and canonicalisation generate)
 }
 
 type gen struct {
@@ -71,6 +72,9 @@ type gen struct {
 	// underRefinement > 0 while generating below a type-refining fragment of an abstract-typed
 	// position (at any depth)
 	underRefinement int
+	// shortNames: remaining client variable names drawn from the alphabet the engine itself
+	// generates (a, b, c, …), in a drawn order; nil = v<N> names only
+	shortNames []string
 }
 
 type varDef struct {
@@ -96,6 +100,9 @@ func Gen(t *rapid.T, s *ast.Schema, o Options) Op {
 	if o.Mutations && s.Mutation != nil && rapid.IntRange(0, 5).Draw(t, "opkind") == 0 {
 		kind, root = "mutation", s.Mutation
 		g.feat["mutation"] = true
+	}
+	if !o.NoShortVars && !o.NoVariables && rapid.IntRange(0, 3).Draw(t, "shortvars") == 0 {
+		g.shortNames = rapid.Permutation([]string{"a", "b", "c", "d", "e", "f"}).Draw(t, "shortnames")
 	}
 	body := g.selSet(root, 0, "r")
 	name := ""
@@ -173,6 +180,17 @@ func (g *gen) allow(class string) bool {
 	}
 	g.feat["excluded:"+class] = true
 	return false
+}
+
+// varName names a fresh client variable: v<N>, or one of the short names while they last.
+func (g *gen) varName() string {
+	if len(g.shortNames) > 0 {
+		n := g.shortNames[0]
+		g.shortNames = g.shortNames[1:]
+		g.feat["short-var-names"] = true
+		return n
+	}
+	return g.next("v")
 }
 
 func (g *gen) next(prefix string) string {
@@ -519,7 +537,7 @@ func (g *gen) argValue(t *ast.Type, locationHasDefault bool, label string) strin
 
 // variable declares a fresh variable usable in a position of type t and returns its name.
 func (g *gen) variable(t *ast.Type, nested bool, label string) string {
-	v := varDef{name: g.next("v"), present: true}
+	v := varDef{name: g.varName(), present: true}
 	vt := *t
 	// a nullable position also accepts a non-null variable
 	if !vt.NonNull && rapid.IntRange(0, 3).Draw(g.t, label+"vnn") == 0 {
